@@ -68,7 +68,7 @@ def check_scenario(sc, res: Result, work: Work, rng, max_all=400, extra_random=3
         res.violation(f"scenario {name} ({sc.describe}): {obs_problem}", dict(case0, kind="observation"))
         return
     ahb.use_provider(sc.evaluators)
-    if sorted(started) != sorted(labels):
+    if sorted(GT._base(l) for l in started) != sorted(GT._base(l) for l in labels):
         # the code starts other awaitables than the orchestration model derives (e.g. after a refactoring of the gathers): that alone is no
         # violation of the property - explore the real schedules without the specification's guidance
         res.coverage.setdefault("plan_divergences", []).append({"plan": name, "model": sorted(labels), "code": sorted(started)})
